@@ -78,7 +78,7 @@ impl Monitor for C18 {
             gen("direct", tier.pick(NCASE, NCASE, 96)),
             gen("rx", tier.pick(NCASE, NCASE, 96)),
             gen("adapter", tier.pick(NCASE_ADAPTER, NCASE_ADAPTER, 96)),
-            gen("mac-handoff", tier.pick(2 * 243, 2 * 243, 8)),
+            gen("mac-handoff", tier.pick(4 * 243, 4 * 243, 8)),
         ]
     }
     fn rule(&self) -> String {
@@ -98,7 +98,7 @@ impl Monitor for C18 {
         if tier == Tier::Sanitizer {
             vec!["ok", "err_oversize"]
         } else {
-            vec!["ok", "ok_wrap", "ok_zero_len", "ok_exact_fit", "err_oversize", "err_oversize_by_one", "hostile_status", "implicit_ok", "adapter_ok", "mac_handoff_ok", "mac_handoff_exact_fit"]
+            vec!["ok", "ok_wrap", "ok_zero_len", "ok_exact_fit", "err_oversize", "err_oversize_by_one", "hostile_status", "implicit_ok", "adapter_ok", "mac_handoff_ok", "mac_handoff_exact_fit", "mac_handoff_nb", "mac_handoff_nb_after_ignored_packet"]
         }
     }
     fn exhaustive(&self, tier: Tier) -> bool {
@@ -539,6 +539,42 @@ mod handoff {
             0
         }
     }
+    /// The state-machine front-end's radio: transmits at once, receives what the driver hands it.
+    pub struct NbOne {
+        pub rx: Vec<u8>,
+    }
+    impl lorawan_device::nb_device::radio::PhyRxTx for NbOne {
+        type PhyEvent = Vec<u8>;
+        type PhyError = ();
+        type PhyResponse = ();
+        const MAX_RADIO_POWER: u8 = 20;
+        fn get_mut_radio(&mut self) -> &mut Self {
+            self
+        }
+        fn get_received_packet(&mut self) -> &mut [u8] {
+            &mut self.rx
+        }
+        fn handle_event(&mut self, event: lorawan_device::nb_device::radio::Event<'_, Self>) -> Result<lorawan_device::nb_device::radio::Response<Self>, ()> {
+            use lorawan_device::nb_device::radio::{Event, Response};
+            Ok(match event {
+                Event::TxRequest(..) => Response::TxDone(0),
+                Event::RxRequest(_) => Response::Rxing,
+                Event::CancelRx => Response::Idle,
+                Event::Phy(p) => {
+                    self.rx = p;
+                    Response::RxDone(lorawan_device::nb_device::radio::RxQuality::new(-60, 7))
+                }
+            })
+        }
+    }
+    impl lorawan_device::Timings for NbOne {
+        fn get_rx_window_offset_ms(&self) -> i32 {
+            0
+        }
+        fn get_rx_window_duration_ms(&self) -> u32 {
+            800
+        }
+    }
     pub struct Now;
     impl Timer for Now {
         fn reset(&mut self) {}
@@ -597,9 +633,67 @@ fn mac_handoff_case(idx: u64, rng: &mut Prng, col: &mut Collector) {
             (r, $n as usize)
         }};
     }
-    let (r, n) = if small_buf { go!(255) } else { go!(256) };
-    col.eval(&format!("mac-handoff|buf{}|len{}", n, if phy_len == 255 { "255".to_string() } else if phy_len == 254 { "254".into() } else { format!("{}x", phy_len / 32) }));
-    let detail = |obs: Value| json!({"mac_radio_buffer": n, "phy_payload_len": phy_len, "observed": obs});
+    // every third case goes through the state-machine front-end instead, where several packets may
+    // arrive in one window: a packet the MAC ignores (noise, or a well-formed frame for nobody) comes
+    // first, then the downlink; the MAC must be handed the second packet alone
+    let nb = idx >= 486;
+    let stray: Option<Vec<u8>> = if nb {
+        match rng.below(3) {
+            0 => None,
+            1 => {
+                let n = rng.range(1, 64) as usize;
+                Some(rng.bytes(n))
+            }
+            _ => {
+                let mut v = frame.clone();
+                let l = v.len();
+                v[l - 1] ^= 0x5a;
+                v.truncate(l.min(13 + rng.below(60) as usize).max(13));
+                Some(v)
+            }
+        }
+    } else {
+        None
+    };
+    macro_rules! go_nb {
+        ($n:literal) => {{
+            use lorawan_device::nb_device::{Device as NbDevice, Event, Response};
+            let mut dev: NbDevice<handoff::NbOne, handoff::Count, $n, 2> = NbDevice::new(Configuration::new(Region::EU868), handoff::NbOne { rx: vec![] }, handoff::Count(rng.next_u32()));
+            let jm = lorawan_device::JoinMode::ABP { nwkskey: lorawan_device::NwkSKey::from(nwk), appskey: lorawan_device::AppSKey::from(app), devaddr: lorawan_device::DevAddr::from_value(addr) };
+            let r = trap(|| {
+                let _ = dev.join(jm);
+                dev.set_datarate(DR::_5);
+                let mut log: Vec<String> = vec![];
+                let mut accepted = false;
+                if let Ok(Response::TimeoutRequest(_)) = dev.send(&[1], 1, false) {
+                    if let Ok(Response::TimeoutRequest(_)) = dev.handle_event(Event::TimeoutFired) {
+                        if let Some(st) = &stray {
+                            let r = dev.handle_event(Event::RadioEvent(lorawan_device::nb_device::radio::Event::Phy(st.clone())));
+                            log.push(format!("stray({}) -> {:?}", st.len(), r.as_ref().map_err(|_| "Err")));
+                        }
+                        let r = dev.handle_event(Event::RadioEvent(lorawan_device::nb_device::radio::Event::Phy(frame.clone())));
+                        log.push(format!("downlink({}) -> {:?}", frame.len(), r.as_ref().map_err(|_| "Err")));
+                        accepted = matches!(r, Ok(Response::DownlinkReceived(1)));
+                    }
+                }
+                let got = dev.take_downlink().map(|d| (d.fport, d.data.to_vec()));
+                let _ = log;
+                (Ok::<bool, u64>(accepted), got)
+            });
+            (r, $n as usize)
+        }};
+    }
+    if nb {
+        col.event(if stray.is_some() { "mac_handoff_nb_after_ignored_packet" } else { "mac_handoff_nb" });
+    }
+    let (r, n) = match (nb, small_buf) {
+        (false, true) => go!(255),
+        (false, false) => go!(256),
+        (true, true) => go_nb!(255),
+        (true, false) => go_nb!(256),
+    };
+    col.eval(&format!("mac-handoff|{}buf{}|len{}", if nb { if stray.is_some() { "nb+stray|" } else { "nb|" } } else { "" }, n, if phy_len == 255 { "255".to_string() } else if phy_len == 254 { "254".into() } else { format!("{}x", phy_len / 32) }));
+    let detail = |obs: Value| json!({"front_end": if nb { "nb_device" } else { "async_device" }, "ignored_packet_before": stray.as_ref().map(|s| s.len()), "mac_radio_buffer": n, "phy_payload_len": phy_len, "observed": obs});
     match r {
         Err(t) => col.violation(&format!("C18|mac-handoff|panic|buf{}|{}", n, t.file()), "handing a received packet to the MAC panicked", detail(json!({"panic": t.msg, "loc": t.loc}))),
         Ok((Err(polls), _)) => {
@@ -614,7 +708,7 @@ fn mac_handoff_case(idx: u64, rng: &mut Prng, col: &mut Collector) {
                 }
             } else {
                 col.violation(
-                    &format!("C18|mac-handoff|packet-not-handed-over-whole|buf{}|{}", n, if phy_len == n { "len=buf" } else if phy_len + 1 == n { "len=buf-1" } else { "len<buf" }),
+                    &format!("C18|mac-handoff|packet-not-handed-over-whole|{}buf{}|{}", if stray.is_some() { "after-ignored-packet|" } else { "" }, n, if phy_len == n { "len=buf" } else if phy_len + 1 == n { "len=buf-1" } else { "len<buf" }),
                     "a received packet that fits the MAC's radio buffer did not reach the MAC whole (an authentic downlink of that length was not accepted or its payload differs)",
                     detail(json!({"accepted": accepted, "delivered_len": got.map(|g| g.1.len())})),
                 );
